@@ -76,6 +76,10 @@ type bodyStream struct {
 	chunkLeft       int
 	// whether the chunk has reached the EOF
 	chunkEOF bool
+	// error met while reading chunk framing (a size line, the CRLF after the data, the
+	// trailer). The place in the framing is lost with it: neither Read nor skipRest can
+	// go on from there.
+	framingErr error
 }
 
 func ReadBodyWithStreaming(zr network.Reader, contentLength, maxBodySize int, dst []byte) (b []byte, err error) {
@@ -133,9 +137,14 @@ func (rs *bodyStream) Read(p []byte) (int, error) {
 			return 0, io.EOF
 		}
 
+		if rs.framingErr != nil {
+			return 0, rs.framingErr
+		}
+
 		if rs.chunkLeft == 0 {
 			chunkSize, err := utils.ParseChunkSize(rs.reader)
 			if err != nil {
+				rs.framingErr = err
 				return 0, err
 			}
 			if chunkSize == 0 {
@@ -143,6 +152,8 @@ func (rs *bodyStream) Read(p []byte) (int, error) {
 				if err == nil {
 					rs.chunkEOF = true
 					err = io.EOF
+				} else {
+					rs.framingErr = err
 				}
 				return 0, err
 			}
@@ -172,6 +183,7 @@ func (rs *bodyStream) Read(p []byte) (int, error) {
 			if err == io.EOF {
 				err = io.ErrUnexpectedEOF
 			}
+			rs.framingErr = err
 		}
 
 		return copied, err
@@ -248,6 +260,9 @@ func (rs *bodyStream) skipRest() error {
 	if rs.contentLength == -1 {
 		if rs.chunkEOF {
 			return nil
+		}
+		if rs.framingErr != nil {
+			return rs.framingErr
 		}
 
 		strCRLFLen := len(bytestr.StrCRLF)
@@ -366,4 +381,5 @@ func (rs *bodyStream) reset() {
 	rs.chunkEOF = false
 	rs.chunkLeft = 0
 	rs.contentLength = 0
+	rs.framingErr = nil
 }
